@@ -501,6 +501,7 @@ pub fn run(ctx: &Ctx) -> Outcome {
         // the same calls from a thread-local destructor while a thread exits (see exitprobe.rs)
         let mut at_exit = Report::new();
         crate::exitprobe::check("page", MON, &mut at_exit);
+        crate::exitprobe::check_migration("page", MON, &mut at_exit);
         report.merge(at_exit);
     }
     let floors = vec![
